@@ -252,3 +252,53 @@ func ZZ_C02_library_functions() {
 		zz.Assert(t != 99 && t != 98, "C02.no-statement-after-the-interrupted-one/library/"+id)
 	}
 }
+
+// ZZ_C02_host_calls_after_cancellation: the cancellation arrives while one host
+// call is running (the one call whose duration the property excludes: here the
+// host function zzcancel cancels the context itself).  No *further* host call
+// of the same expression starts - a list of forty slow host calls does not run
+// to its end - no statement after it runs, and the run reports the interruption.
+func ZZ_C02_host_calls_after_cancellation() {
+	forms := []struct{ name, src string }{
+		{"list-literal", "x = [p(1), zzcancel(), p(2), p(3)]"},
+		{"call-arguments", "q(p(1), zzcancel(), p(2), p(3))"},
+		{"operator-chain", "x = p(1) + zzcancel() + p(2) + p(3)"},
+		{"map-literal", "x = {\"a\": p(1), \"b\": zzcancel(), \"c\": p(2)}"},
+		{"multi-assignment", "a, b, c = zzcancel(), p(2), p(3)"},
+		{"nested-calls", "p(p(zzcancel()))"},
+		{"return-list", "func() { return zzcancel(), p(2), p(3) }()"},
+		{"script-function-arguments", "f = func(a, b, c) { return a }; f(zzcancel(), p(2), p(3))"},
+		{"variadic-go-arguments", "qv(zzcancel(), p(2), p(3))"},
+		{"index-operands", "l = [1, 2, 3]; l[zzcancel()] + l[p(1)]"},
+		{"condition", "if zzcancel() == 0 && p(2) == 2 { p(3) }"},
+		{"method-of-host-value", "x = [zzcancel(), rec.Get()]"},
+	}
+	f := forms[zz.Choose(len(forms))]
+	trailing := zz.Choose(2) == 0
+	ctx := zzNewCtx(1000000)
+	e := env.NewEnv()
+	e.Define("p", func(i int64) int64 { zz.Probe(int(i)); return i })
+	e.Define("q", func(a, b, c, d int64) int64 { zz.Probe(50); return a })
+	e.Define("qv", func(a ...int64) int64 { zz.Probe(51); return 0 })
+	e.Define("zzcancel", func() int64 { ctx.cancel(); return 0 })
+	e.Define("rec", &zzProbeRec{})
+	src := f.src
+	id := f.name
+	if trailing {
+		src += "\np(99)"
+	} else {
+		id += "/last-statement"
+	}
+	zz.ResetTrace()
+	zz.Budget(3000000)
+	_, err := ExecuteContext(ctx, e, &Options{Debug: false}, src)
+	zz.Assertf(ctx.closed, "C02.cancellation-was-delivered/host-calls/"+id, src)
+	zz.Assertf(err != nil && err.Error() == ErrInterrupt.Error(), "C02.returns-execution-interrupted/host-calls/"+id, src)
+	if ctx.observedAt >= 0 {
+		zz.Assertf(zz.TraceLen() == ctx.observedAt, "C02.no-host-call-starts-after-cancellation/"+id, src)
+	}
+}
+
+type zzProbeRec struct{}
+
+func (*zzProbeRec) Get() int64 { zz.Probe(60); return 0 }
